@@ -3,6 +3,7 @@ package meta
 import (
 	"errors"
 	"fmt"
+	"reflect"
 	"sort"
 	"strings"
 
@@ -301,7 +302,11 @@ func (r *resolver) applyDeviation(y *Module, d *Deviation) error {
 			notifs := target.Parent().(HasNotifications).Notifications()
 			delete(notifs, target.Ident())
 		default:
-			hasDDefs := target.Parent().(HasDataDefinitions)
+			hasDDefs, valid := target.Parent().(HasDataDefinitions)
+			if !valid {
+				// e.g. a case, whose parent choice keeps cases not data definitions
+				return fmt.Errorf("not-supported cannot be applied to %s", d.Ident())
+			}
 			existing := hasDDefs.popDataDefinitions()
 			for _, candidate := range existing {
 				if candidate != target {
@@ -317,6 +322,10 @@ func (r *resolver) applyDeviation(y *Module, d *Deviation) error {
 	// violations are errors, not silent ignores.
 	hasDets, _ := target.(HasDetails)
 	hasType, _ := target.(Leafable)
+	if _, isAny := target.(*Any); isAny {
+		// anydata has neither type, units nor default to deviate
+		hasType = nil
+	}
 	hasListDets, _ := target.(HasListDetails)
 	hasList, _ := target.(*List)
 	hasMusts, _ := target.(HasMusts)
@@ -481,7 +490,7 @@ func (r *resolver) applyDeviation(y *Module, d *Deviation) error {
 			if hasType == nil {
 				return notApplicable("default")
 			}
-			if hasType.DefaultValue() == d.Delete.DefaultValue() {
+			if reflect.DeepEqual(hasType.DefaultValue(), d.Delete.DefaultValue()) {
 				return fmt.Errorf("cannot delete units '%s' != '%s' on %s",
 					d.Delete.Default(), hasType.DefaultValue(),
 					d.Ident())
